@@ -1,0 +1,50 @@
+//go:build verif
+
+// Contracts for the verification machinery in /verif (engine: govc). Comments only.
+package index
+
+// ---------------------------------------------------------------------------
+// Fixed-width encoders (C18): the key is the big-endian image of the value, so the value is
+// a function of the key bytes (injective) and equal values give equal keys.
+
+//@ spec be16(k []byte) mathint = k[0] * 256 + k[1]
+//@ spec be32(k []byte) mathint = ((k[0] * 256 + k[1]) * 256 + k[2]) * 256 + k[3]
+//@ spec be64(k []byte) mathint = ((((((k[0] * 256 + k[1]) * 256 + k[2]) * 256 + k[3]) * 256 + k[4]) * 256 + k[5]) * 256 + k[6]) * 256 + k[7]
+
+//@ func Uint16
+//@   property C18
+//@   ensures len(result) == 2 && be16(result) == n
+//@   ensures fresh(result)
+//@ func Uint32
+//@   property C18
+//@   ensures len(result) == 4 && be32(result) == n
+//@   ensures fresh(result)
+//@ func Uint64
+//@   property C18
+//@   ensures len(result) == 8 && be64(result) == n
+//@   ensures fresh(result)
+
+// Signed encoders reuse the unsigned ones on the two's complement image.
+//@ func Int16
+//@   property C18
+//@   ensures len(result) == 2 && be16(result) == (n >= 0 ? n : n + 65536)
+//@ func Int32
+//@   property C18
+//@   ensures len(result) == 4 && be32(result) == (n >= 0 ? n : n + 4294967296)
+//@ func Int64
+//@   property C18
+//@   ensures len(result) == 8 && be64(result) == (n >= 0 ? n : n + 18446744073709551616)
+
+// trueKey/falseKey are package variables initialised to {'T'} / {'F'} and never written
+// (no store to them exists in the module); their contents are a precondition here.
+//@ func Bool
+//@   property C18
+//@   requires len(trueKey) == 1 && trueKey[0] == 84 && len(falseKey) == 1 && falseKey[0] == 70
+//@   ensures len(result) == 1
+//@   ensures b ==> result[0] == 84
+//@   ensures !b ==> result[0] == 70
+
+// ---------------------------------------------------------------------------
+// KeySet (C04): view(ks) = {} if head == nil, else {head} + tail.
+
+//@ spec inTail(t []Key, k []byte) bool = exists i int :: 0 <= i && i < len(t) && bytesEq(t[i], k)
